@@ -246,3 +246,67 @@ func c01RunCompaction() {
 }
 
 func VerifC01PlainKVCompaction() { c01RunCompaction() }
+
+// ---- C02 with compaction into the last level's main tables ----
+//
+// 3 versioned writes (key a|b, symbolic version 1..3, symbolic payload), each
+// followed by nothing | flush | flush + move to the ingest buffer + drain into
+// the last level — with a table size target so small that the compaction starts
+// a new output table at every user key — then Get(key, v) for a symbolic v.
+func c02RunCompaction() {
+	sym.FreeRun()
+	verifLevels = 3
+	verifCompactFileSz = 1
+	verifBlockSize = 1
+	v := VerifOpenLSM("skiplist")
+	verifLevels, verifBlockSize = 2, 4<<10
+	lastLevel := v.L.option.MaxLevelNum - 1
+	var hist []c02Write
+	for i := 0; i < 3; i++ {
+		w := c02Write{key: byte('a' + sym.Int("key", 0, 1)), ver: uint64(sym.SymInt("version", 1, 3)), val: sym.U8("payload")}
+		e := kv.NewEntry(kv.InternalKey(kv.CFDefault, []byte{w.key}, w.ver), []byte{w.val})
+		e.Version = w.ver
+		sym.Assert(v.L.Set(e) == nil, "write-accepted")
+		hist = append(hist, w)
+		then := sym.Int("then", 0, 2)
+		if then >= 1 {
+			v.L.Rotate()
+			v.FlushAll()
+		}
+		if then == 2 {
+			v.VerifCompact(0, compact.IngestNone)
+			v.VerifCompact(lastLevel, compact.IngestDrain)
+		}
+	}
+	verifCompactFileSz = 2 << 20
+	pk := byte('a' + sym.Int("probe_key", 0, 1))
+	pv := uint64(sym.SymInt("probe_version", 1, 3))
+	var want *c02Write
+	outOfOrder := false
+	for i := range hist {
+		w := &hist[i]
+		if w.key != pk {
+			continue
+		}
+		for j := 0; j < i; j++ {
+			if hist[j].key == pk {
+				outOfOrder = sym.Or(outOfOrder, w.ver < hist[j].ver)
+			}
+		}
+		if w.ver <= pv && (want == nil || w.ver >= want.ver) {
+			want = w
+		}
+	}
+	sym.Finding("OutOfOrderVersions", outOfOrder)
+	got, err := v.L.Get(kv.InternalKey(kv.CFDefault, []byte{pk}, pv))
+	if want == nil {
+		sym.Assert(err == utils.ErrKeyNotFound || got == nil || (got.Value == nil && got.Meta == 0), "read-returns-newest-entry-at-or-below-version")
+	} else {
+		sym.Assert(err == nil && got != nil, "read-returns-newest-entry-at-or-below-version")
+		sym.Assert(len(got.Value) == 1 && got.Value[0] == want.val, "read-returns-the-most-recent-write-of-that-version")
+	}
+	v.Close()
+	sym.Reached("end")
+}
+
+func VerifC02LSMReadCompaction() { c02RunCompaction() }
